@@ -69,6 +69,31 @@ def receiver_bindings(fn_node):
     return out
 
 
+HASH_METHODS = {"setdefault", "get", "pop", "add", "remove", "discard", "index", "count", "__contains__", "__getitem__", "__setitem__", "update", "fromkeys"}
+
+
+def taint_sinks(fn_node, tainted):
+    """Places where a tainted name (the receiver) is hashed or ==-compared inside a helper function."""
+    sinks = []
+    for n in ast.walk(fn_node):
+        if isinstance(n, ast.Compare) and any(isinstance(o, EQ_OPS) for o in n.ops):
+            if any(isinstance(x, ast.Name) and x.id in tainted for x in [n.left, *n.comparators]):
+                sinks.append(f"`{norm(n)}` (equality / membership)")
+        elif isinstance(n, ast.Subscript) and isinstance(n.slice, ast.Name) and n.slice.id in tainted:
+            sinks.append(f"`{norm(n)}` (used as a mapping key: hashed and ==-compared)")
+        elif isinstance(n, ast.Call):
+            args = [a for a in n.args if isinstance(a, ast.Name) and a.id in tainted]
+            if args and isinstance(n.func, ast.Attribute) and n.func.attr in HASH_METHODS:
+                sinks.append(f"`{norm(n)[:70]}` (container lookup: hashed and ==-compared)")
+            elif args and isinstance(n.func, ast.Name) and n.func.id in ("hash", "set", "frozenset", "sorted", "dict"):
+                sinks.append(f"`{norm(n)[:70]}`")
+        elif isinstance(n, ast.Dict) and any(isinstance(k, ast.Name) and k.id in tainted for k in n.keys if k is not None):
+            sinks.append(f"`{norm(n)[:70]}` (dict key)")
+        elif isinstance(n, (ast.Set,)) and any(isinstance(k, ast.Name) and k.id in tainted for k in n.elts):
+            sinks.append(f"`{norm(n)[:70]}` (set element)")
+    return sinks
+
+
 def key_hashes_values(call_fn):
     """Does the interning key contain the keyword values themselves (=> hash() and == on them)?"""
     kw = call_fn.args.kwarg.arg if call_fn.args.kwarg else None
@@ -162,6 +187,19 @@ def run(repo, chk):
             kwv = kwarg(c, field)
             wrapper = kwv.func.id if isinstance(kwv, ast.Call) and isinstance(kwv.func, ast.Name) else None
             wq = f"selector.{wrapper}"
+            if wrapper is not None and wq not in repo.classes and wq in repo.functions:
+                # the receiver is handed to a helper: follow it
+                hf = repo.functions[wq]
+                hparams = [a.arg for a in hf.node.args.args]
+                tainted = {hparams[i] for i, a in enumerate(kwv.args) if i < len(hparams) and any(is_receiver_expr(x, receiver_sources(rs.node)[1]) for x in ast.walk(a))}
+                sinks = taint_sinks(hf.node, tainted)
+                chk.ob("R13.1", f"selector._resolve:receiver->{wq}:hash-or-equality-sinks", not sinks, hf.where,
+                       f"the receiver is passed to {wq}({', '.join(sorted(tainted))}); inside it the receiver is " +
+                       ("only captured / compared by identity" if not sinks else f"hashed or compared by equality: {sinks[:2]} -- equal-but-distinct receivers are confused, unhashable ones fail"))
+                rets = [r.value for r in ast.walk(hf.node) if isinstance(r, ast.Return) and r.value is not None]
+                made = [x.func.id for r in ast.walk(hf.node) if isinstance(r, ast.Assign) for x in [r.value] if isinstance(x, ast.Call) and isinstance(x.func, ast.Name) and f"selector.{x.func.id}" in repo.classes]
+                wrapper = made[0] if made else None
+                wq = f"selector.{wrapper}"
             if wrapper is None or wq not in repo.classes:
                 raise AnalysisError("selector._resolve: receiver wrapper class not recognised")
             special = sorted(n.name for n in repo.classes[wq].body if isinstance(n, ast.FunctionDef) and n.name in ("__eq__", "__hash__", "__ne__"))
